@@ -4,13 +4,20 @@ use super::ShardArgs;
 pub mod common;
 
 pub mod c06;
+pub mod c07;
 pub mod c08;
+pub mod c12;
+pub mod smoke;
 
 pub fn dispatch(a: &ShardArgs) -> Result<(), String> {
     super::refcodec::link::self_test()?;
+    super::refcodec::app::self_test()?;
     match a.check.as_str() {
         "c06" => c06::run(a),
+        "c07" => c07::run(a),
         "c08" => c08::run(a),
+        "c12" => c12::run(a),
+        "smoke" => smoke::run(a),
         other => Err(format!("unknown check {other}")),
     }
 }
